@@ -341,7 +341,7 @@ def run(report, index, tier):
         carrier = Obj('LexToken', hidden_tokens=toks)
         p = Obj('YaccProduction', slice=[None, carrier])
         node = Obj('Node')
-        ev = Evaluator(asttypes, 'Node', {}, {
+        ev = Evaluator(asttypes, 'Node', asttypes.class_methods('Node'), {
             'LineComment': mkcomment('LineComment'),
             'BlockComment': mkcomment('BlockComment'),
             'Comments': mkcomments,
@@ -359,8 +359,10 @@ def run(report, index, tier):
                 if tm != {c.value: [(c.lexpos, c.lineno, c.colno)]}:
                     got.append(('token map of %r' % c.value, tm))
             gotpos = (cs.lexpos, cs.lineno, cs.colno)
-        except (Raised, AnalysisError) as e:
-            got, gotpos = 'error %s' % e, None
+        except Raised as e:
+            # the evaluated code itself raises: a finding; a failure of
+            # the evaluator (AnalysisError) stops the check instead
+            got, gotpos = 'raises %s' % e.text, None
         want = [({'LINE_COMMENT': 'LineComment',
                   'BLOCK_COMMENT': 'BlockComment'}[t], v, lp, ln, cn)
                 for t, v, lp, ln, cn in case]
